@@ -115,8 +115,8 @@ PROPS = {
                      "MantraDex.C14Eq.single_asset_equals_two_step_partial",
                      "MantraDex.C15Sys.positions_change_only_by_owner_tx_partial", "MantraDex.C15Sys.new_positions_belong_to_signer_partial",
                      "MantraDex.C14Lock.single_asset_locked_equals_two_step_partial", "MantraDex.C14Lock.single_asset_locked_equals_two_step_fields",
-                     "MantraDex.C14Lock.single_asset_locks_for_sender", "MantraDex.MonSoundE.monSingleShape_sound"],
-        "extra_modules": ["MantraDex.Properties.C14Eq", "MantraDex.Properties.C15Sys", "MantraDex.Properties.C14Lock", "MantraDex.Properties.MonSoundE"],
+                     "MantraDex.C14Lock.single_asset_locks_for_sender", "MantraDex.MonSoundE.monSingleShape_sound", "MantraDex.C14Conv.two_step_accepted_implies_single_accepted", "MantraDex.C14Conv.Cx.without_hfcPM_false", "MantraDex.C14Conv.Cx.without_hfcu_false", "MantraDex.C14Conv.Cx.applies"],
+        "extra_modules": ["MantraDex.Properties.C14Eq", "MantraDex.Properties.C15Sys", "MantraDex.Properties.C14Lock", "MantraDex.Properties.MonSoundE", "MantraDex.Properties.C14Conv"],
         "streams": {"pm_hist": (160, 4000), "twin": (120, 3000), "faults": (45, 1500), "fm_hist": (120, 3000)},
         "what": "single-asset deposits are refused on empty / larger pools; neither path can lock LP for someone other than the sender and an existing "
                 "position must belong to the receiver; first leg = simulate, buffer (expected balances, options), swap exactly floor(a/2) via a "
@@ -469,8 +469,8 @@ PROPS = {
                      "MantraDex.C12Sys.swap_tx_within_slippage", "MantraDex.C12Sys.route_tx_min_receive", "MantraDex.C20Tx.swap_tx_belief_price",
                      "MantraDex.C13Tx.provide_tx_within_tolerance", "MantraDex.C13Tx.provide_tx_within_tolerance_locked",
                      "MantraDex.C13Tx.provide_tx_tolerance_monotone", "MantraDex.C13Tx.provide_tx_tolerance_monotone_any",
-                     "MantraDex.C13Tx.provide_tx_tolerance_above_one_refused_partial", "MantraDex.C13Tx.provide_tx_tolerance_above_one_unchanged", "MantraDex.MonSoundC.monCpSlippage_sound", "MantraDex.NonVac2.provide_tx_within_tolerance_applies", "MantraDex.NonVac2.provide_tx_tolerance_monotone_applies", "MantraDex.NonVac2.tol1_refuses", "MantraDex.MonSoundG.monMinReceive_sound"],
-        "extra_modules": ["MantraDex.Properties.C12Sys", "MantraDex.Properties.C20Tx", "MantraDex.Properties.C13Tx", "MantraDex.Properties.MonSoundC", "MantraDex.Properties.NonVacuity2", "MantraDex.Properties.MonSoundG"],
+                     "MantraDex.C13Tx.provide_tx_tolerance_above_one_refused_partial", "MantraDex.C13Tx.provide_tx_tolerance_above_one_unchanged", "MantraDex.MonSoundC.monCpSlippage_sound", "MantraDex.NonVac2.provide_tx_within_tolerance_applies", "MantraDex.NonVac2.provide_tx_tolerance_monotone_applies", "MantraDex.NonVac2.tol1_refuses", "MantraDex.MonSoundG.monMinReceive_sound", "MantraDex.MonSoundH.monCpSlippage_hop_sound", "MantraDex.MonSoundH.monCpSlippage_first_hop_sound"],
+        "extra_modules": ["MantraDex.Properties.C12Sys", "MantraDex.Properties.C20Tx", "MantraDex.Properties.C13Tx", "MantraDex.Properties.MonSoundC", "MantraDex.Properties.NonVacuity2", "MantraDex.Properties.MonSoundG", "MantraDex.Properties.MonSoundH"],
         "streams": {"swapmath": (4000, 200000), "mintmath": (4000, 200000), "pm_hist": (120, 3000)},
         "what": "swap/route: accept iff slippage/(return+slippage) <= min(tolerance or 1%, 50%) (or, with a belief price, iff return >= expected or "
                 "short by <= tolerance); monotone in the tolerance; > 50% capped; routes deliver >= minimum_receive or fail; constant-product deposit: "
